@@ -283,6 +283,8 @@ def check(case):
                     suffix = ""
                     if r[0] == "order-mismatch" and fragile[0] and kind == "findall":
                         suffix = "|node-order"
+                    elif r[0] == "duplicates-mismatch" and complementary_clause_pair(case):
+                        suffix = "|complement"
                     elif r[0] == "duplicates-mismatch" and fragile[1]:
                         suffix = "|leafless"
                     elif r[0] == "duplicates-mismatch" and nested_all_in_findall(case):
@@ -341,7 +343,24 @@ def findall_leafless_proof(case, failure=None):
         return False
 
 
-KNOWN_CLASSES = {"findall_node_order": findall_node_order, "findall_leafless_proof": findall_leafless_proof,
+def complementary_clause_pair(case, failure=None):
+    """Class of the finding 'an answer with the proofs g and \\+ g is ONE findall element': some predicate has a clause
+    whose body is a single call and another clause whose body is the negation of a call of the same predicate (in
+    findall's keep_all formula even deterministic facts are atom nodes, so the answer's disjunction has the children
+    n and -n and collapses to TRUE, which absorbs every other proof of that answer)."""
+    pos, neg = set(), set()
+    for s in case["prog"]:
+        if s[0] != "cl" or s[2] is None:
+            continue
+        b = s[2]
+        if b[0] == "call":
+            pos.add((s[1][0], b[1]))
+        elif b[0] == "not" and b[1][0] == "call":
+            neg.add((s[1][0], b[1][1]))
+    return bool(pos & neg)
+
+
+KNOWN_CLASSES = {"findall_node_order": findall_node_order, "findall_complement_pair": complementary_clause_pair, "findall_leafless_proof": findall_leafless_proof,
                  "nested_all_in_findall": nested_all_in_findall}
 
 SUBCHECKS = [
